@@ -4,9 +4,12 @@ import (
 	"bytes"
 	"encoding/json"
 	"fmt"
+	"math/big"
 	"os"
+	"regexp"
 	"sort"
 	"strings"
+	"time"
 
 	lockuptypes "github.com/osmosis-labs/osmosis/v31/x/lockup/types"
 
@@ -34,7 +37,7 @@ func (w *world) fork() {
 	if _, err := simnet.NewReplicaFromExport("D0", exp, w.now, false); err != nil {
 		sig := "default-flags"
 		if strings.Contains(err.Error(), "invariant broken") {
-			sig = "default-flags/genesis-invariants"
+			sig = "default-flags/genesis-invariants" + w.invariantClass(err.Error())
 		}
 		w.report("import-runs", sig, "height %d: a fresh replica with default flags rejects A's export: %.600v", w.h, err)
 	}
@@ -68,6 +71,7 @@ func (w *world) fork() {
 		run.Count("info/fork-suffix-not-compared-after-unfaithful-import")
 	}
 	w.importQueries()
+	w.lockupAccumulation()
 	if os.Getenv("VERIF_C19_DEBUG") != "" { // investigation aid
 		ca, cd := w.A.QueryCtx(), w.D.PendingCtx()
 		fmt.Fprintf(os.Stderr, "fork h=%d: incentives gauges upcoming/active: A %d/%d, D %d/%d\n", w.h,
@@ -152,6 +156,82 @@ func (w *world) importQueries() {
 			w.report("import-query", "bank/supply-of", "height %d: bank supply of %s (with offsets): A reports %s, the replica initialised from A's export reports %s", w.h, d, sa, sd)
 			break
 		}
+	}
+}
+
+var reSfInvariant = regexp.MustCompile(`lockup delegations: (\d+) != (\d+)\.`)
+
+// invariantClass names the registered invariant that refused the import. The superfluid total-delegation
+// invariant demands exact equality between the intermediary accounts' stake and the value of the connected
+// locks; it is classed by size, so that only a mismatch of at most one unit per connected lock (the rounding
+// drift recorded under C11) falls under the known finding and anything larger is reported.
+func (w *world) invariantClass(msg string) string {
+	i := strings.Index(msg, "invariant broken: ")
+	if i < 0 {
+		return ""
+	}
+	rest := msg[i+len("invariant broken: "):]
+	parts := strings.SplitN(rest, ":", 3)
+	if len(parts) < 2 {
+		return ""
+	}
+	name := strings.TrimSpace(parts[0]) + "/" + strings.TrimSuffix(strings.Fields(strings.TrimSpace(parts[1]) + " x")[0], "-invariant-name")
+	if m := reSfInvariant.FindStringSubmatch(msg); m != nil && strings.HasPrefix(name, "superfluid/") {
+		a, _ := new(big.Int).SetString(m[1], 10)
+		b, _ := new(big.Int).SetString(m[2], 10)
+		conns := int64(len(w.A.App.SuperfluidKeeper.GetAllLockIdIntermediaryAccountConnections(w.A.QueryCtx())))
+		if d := new(big.Int).Abs(new(big.Int).Sub(a, b)); d.Cmp(big.NewInt(conns)) <= 0 {
+			return "/" + name + "/at-most-one-unit-per-connected-lock"
+		}
+		return "/" + name + "/beyond-rounding"
+	}
+	return "/" + name
+}
+
+// lockupAccumulation compares what the lockup module reports as locked per denomination and minimum
+// duration (the figures gauges distribute by and superfluid sizes its delegations by) for every native
+// and synthetic denomination that has locks, and the delegation superfluid expects for every
+// intermediary account. InitGenesis rebuilds the accumulation store from the exported locks.
+func (w *world) lockupAccumulation() {
+	ca, cd := w.A.QueryCtx(), w.D.PendingCtx()
+	set := map[string]bool{}
+	locks, _ := w.A.App.LockupKeeper.GetPeriodLocks(ca)
+	for _, l := range locks {
+		for _, c := range l.Coins {
+			set[c.Denom] = true
+		}
+	}
+	for _, sl := range w.A.App.LockupKeeper.GetAllSyntheticLockups(ca) {
+		set[sl.SynthDenom] = true
+	}
+	denoms := make([]string, 0, len(set))
+	for d := range set {
+		denoms = append(denoms, d)
+	}
+	sort.Strings(denoms)
+	durs := append([]time.Duration{0, time.Nanosecond}, lockDurations...)
+	durs = append(durs, sfUnbonding+time.Second, 2*time.Hour)
+	for _, d := range denoms {
+		for _, dur := range durs {
+			q := lockuptypes.QueryCondition{LockQueryType: lockuptypes.ByDuration, Denom: d, Duration: dur}
+			a, b := w.A.App.LockupKeeper.GetPeriodLocksAccumulation(ca, q), w.D.App.LockupKeeper.GetPeriodLocksAccumulation(cd, q)
+			if !a.Equal(b) {
+				w.report("import-query", "lockup/accumulation", "height %d: amount of %s locked for at least %s: A reports %s, the replica initialised from A's export reports %s", w.h, d, dur, a, b)
+				return
+			}
+		}
+	}
+	w.run.Count("import-lockup-accumulation-compared")
+	accs := w.A.App.SuperfluidKeeper.GetAllIntermediaryAccounts(ca)
+	sort.Slice(accs, func(i, j int) bool { return accs[i].GetAccAddress().String() < accs[j].GetAccAddress().String() })
+	for _, acc := range accs {
+		a, ea := w.A.App.SuperfluidKeeper.GetExpectedDelegationAmount(ca, acc)
+		b, eb := w.D.App.SuperfluidKeeper.GetExpectedDelegationAmount(cd, acc)
+		if (ea == nil) != (eb == nil) || (ea == nil && !a.Equal(b)) {
+			w.report("import-query", "superfluid/expected-delegation", "height %d: delegation expected for the intermediary account of %s to %s: A reports %s (err=%v), the replica initialised from A's export reports %s (err=%v)", w.h, acc.Denom, acc.ValAddr, a, ea, b, eb)
+			return
+		}
+		w.run.Count("import-superfluid-expected-delegation-compared")
 	}
 }
 
